@@ -22,6 +22,7 @@ ASSUMPTIONS = [
     "independent numpy forward pass: Linear = W x + b, activations tanh / sin / softplus",
     "'restricted to its output slice' refers to the wrapper's output_slice (slice_solution is used by loss terms, C05)",
     "float64, rtol 1e-9",
+    "every wrapper is evaluated with parameters different from the ones it was created with",
     "shared-output networks have >= 2 outputs (a one-output network with a shared slice is not generated)",
     "shared output slices are whatever jnp.s_ can express on one axis (contiguous, integers from either end, negative bounds, steps, overlapping), always selecting >= 1 output",
 ]
@@ -154,6 +155,16 @@ def shared_slices(rng, n_out, seed):
     return tuple(sl), list(sl)
 
 
+def moved(nn, rng):
+    """parameters that are NOT the creation-time ones (a wrapper must use what it is given, not what it holds)"""
+    import jax
+    import jax.numpy as jnp
+
+    leaves, tdef = jax.tree_util.tree_flatten(nn)
+    return jax.tree_util.tree_unflatten(tdef, [jnp.asarray(np.asarray(l) * 0.8 + rng.uniform(-0.3, 0.3, np.shape(l)))
+                                               for l in leaves])
+
+
 def run_case(case, rec):
     import equinox as eqx
     import jax
@@ -205,7 +216,7 @@ def run_case(case, rec):
             if len(ulist) != len(shared):
                 rec.violation("shared/count", "%d networks returned for %d output slices" % (len(ulist), len(shared)))
                 return
-        nn = ulist[0].init_params()
+        nn = moved(ulist[0].init_params(), rng)
         model = eqx.combine(nn, ulist[0].static)
         layers = extract_layers(model.layers, names)
         params = Params(nn_params=nn, eq_params=eqj)
@@ -260,7 +271,7 @@ def run_case(case, rec):
             d = max(d, 2)
         lst, names = eqx_list_for(1, case["widths"], case["acts"], r * m, case["final_act"])
         u = guard.call(jinns.utils.create_SPINN, key, d, r, lst, eqt, m)
-        nn = u.init_params()
+        nn = moved(u.init_params(), rng)
         model = eqx.combine(nn, u.static)
         subnets = [extract_layers(model.separated_mlp[k], names) for k in range(d)]
         cols = rng.uniform(-1, 2, (B, d))
@@ -320,7 +331,7 @@ def run_case(case, rec):
                 rec.violation("shared/count", "%d hyper networks returned for %d output slices" % (len(ulist), len(hshared)))
                 return
         u = ulist[0]
-        nn = u.init_params()
+        nn = moved(u.init_params(), rng)
         hyper_model = eqx.combine(nn, u.static_hyper)
         hlayers = extract_layers(hyper_model.layers, ["tanh"])
         eq_all = dict(eqj)
